@@ -657,3 +657,479 @@ Proof.
     + intros s Hr. constructor. exact Hr.
     + intros z. reflexivity.
 Qed.
+
+(* ---------- completeness: whenever some assignment rebuilds the value, the match succeeds ---------- *)
+
+Lemma bind_ok_mono n m rho p v sc : (n <= m)%nat -> bind_pat n rho p v = Ok sc -> bind_pat m rho p v = Ok sc.
+Proof. intros Hle H. destruct (bind_fuel_mono n m rho p v Hle) as [E|E]; congruence. Qed.
+
+Lemma eval_ok_mono n m rho e w : (n <= m)%nat -> eval n rho e = Ok w -> eval m rho e = Ok w.
+Proof. intros Hle H. destruct (eval_fuel_mono n m rho e Hle) as [E|E]; congruence. Qed.
+
+Definition Complete (k : nat) : Prop :=
+  forall p, (pat_depth p <= k)%nat -> forall rho s v, pat_nofb p = true -> rebuilds rho s p v ->
+    exists n, forall m, (n <= m)%nat -> exists sc, bind_pat m rho p v = Ok sc /\ ext sc s.
+
+Lemma complete_leaf p : match p with PVar _ | PWild | PExpr _ => True | _ => False end ->
+  forall rho s v, rebuilds rho s p v ->
+    exists n, forall m, (n <= m)%nat -> exists sc, bind_pat m rho p v = Ok sc /\ ext sc s.
+Proof.
+  intros Hp rho s v Hr. destruct p as [x| |e| | | |]; try contradiction; inversion Hr; subst.
+  - exists 1%nat. intros m Hm. destruct m as [|m]; [lia|]. exists [(x, v)]. split; [reflexivity|].
+    intros z w. simpl. destruct (name_eqb z x) eqn:E; [|discriminate].
+    apply name_eqb_eq in E. subst. intros [= <-]. assumption.
+  - exists 1%nat. intros m Hm. destruct m as [|m]; [lia|]. exists []. split; [reflexivity | apply ext_nil].
+  - match goal with H : evals _ _ _ |- _ => destruct H as (n0 & He) end.
+    exists (S n0). intros m Hm. destruct m as [|m]; [lia|]. exists []. split; [|apply ext_nil].
+    rewrite bind_pat_S. cbn [bindF]. rewrite (eval_ok_mono n0 m _ _ _ ltac:(lia) He). simpl.
+    assert (E : veqb a a = true) by (apply veqb_eq; reflexivity). rewrite E. reflexivity.
+Qed.
+
+Lemma arr_go_rest_eq ev bd rho hb o suf m b acc :
+  length b = length suf ->
+  arr_go ev bd rho hb (PExtra o :: suf) (m ++ b) acc =
+  (do acc' <- match o with Some x => bind_item bd rho acc (PVar x) (D (arr_val m)) | None => Ok acc end;
+   arr_go ev bd rho hb suf b acc').
+Proof.
+  intros Hl. cbn [arr_go]. rewrite app_length.
+  replace (length m + length b <? length suf)%nat with false by (symmetry; apply Nat.ltb_ge; lia).
+  replace (length m + length b - length suf)%nat with (length m) by lia.
+  rewrite firstn_app, Nat.sub_diag, firstn_all, skipn_app, skipn_all, Nat.sub_diag. simpl. rewrite app_nil_r.
+  reflexivity.
+Qed.
+
+Lemma Forall2_len {A B} (P : A -> B -> Prop) l m : Forall2 P l m -> length l = length m.
+Proof. induction 1; simpl; congruence. Qed.
+
+Lemma Forall2_item_plain R items xs : Forall2 (item_rb R) items xs -> forallb is_plain items = true.
+Proof. induction 1 as [|it x items xs H F IH]; [reflexivity|]. inversion H; subst. simpl. exact IH. Qed.
+
+Lemma plain_snd_filter {A} (l : list (A * pitem)) :
+  forallb (fun a => is_plain (snd a)) l = true -> filter is_extra_snd l = [].
+Proof.
+  induction l as [|[a it] l IH]; [reflexivity|]. simpl. intros H. apply andb_true_iff in H as [H1 H].
+  destruct it as [q [d|]|o]; try discriminate. unfold is_extra_snd at 1. simpl. exact (IH H).
+Qed.
+
+Lemma Forall_attr_plain R tv attrs : Forall (attr_rb R tv) attrs ->
+  forallb (fun a : name * pitem => is_plain (snd a)) attrs = true.
+Proof. induction 1 as [|a attrs H F IH]; [reflexivity|]. inversion H; subst. simpl. exact IH. Qed.
+
+Lemma dict_keys_plain R rh ents r0 r1 : dict_keys_rb R rh ents r0 r1 ->
+  forallb (fun a : expr * pitem => is_plain (snd a)) ents = true.
+Proof. induction 1; [reflexivity|]. simpl. assumption. Qed.
+
+Lemma dict_keys_split R rh : forall a b r0 r2, dict_keys_rb R rh (a ++ b) r0 r2 ->
+  exists r1, dict_keys_rb R rh a r0 r1 /\ dict_keys_rb R rh b r1 r2.
+Proof.
+  induction a as [|x a IH]; intros b r0 r2 H.
+  - exists r0. split; [constructor | exact H].
+  - simpl in H. inversion H; subst.
+    match goal with H' : dict_keys_rb _ _ (a ++ b) _ _ |- _ => destruct (IH _ _ _ H') as (r1 & Ha & Hb) end.
+    exists r1. split; [econstructor; eauto | exact Hb].
+Qed.
+
+Lemma set_lits_split rh : forall a b r0 r2, set_lits_rb rh (a ++ b) r0 r2 ->
+  exists r1, set_lits_rb rh a r0 r1 /\ set_lits_rb rh b r1 r2.
+Proof.
+  induction a as [|x a IH]; intros b r0 r2 H.
+  - exists r0. split; [constructor | exact H].
+  - simpl in H. inversion H; subst.
+    match goal with H' : set_lits_rb _ (a ++ b) _ _ |- _ => destruct (IH _ _ _ H') as (r1 & Ha & Hb) end.
+    exists r1. split; [econstructor; eauto | exact Hb].
+Qed.
+
+Section CompleteStep.
+Variable k : nat.
+Hypothesis IHk : Complete k.
+Variables (rho s : env).
+
+Lemma bind_item_complete q x :
+  (pat_depth q <= k)%nat -> pat_nofb q = true -> rebuilds rho s q (D x) ->
+  exists N, forall M, (N <= M)%nat -> forall acc, ext acc s ->
+    exists acc', bind_item (bind_pat M) rho acc q (D x) = Ok acc' /\ ext acc' s.
+Proof.
+  intros Hd Hnf Hr. destruct (IHk q Hd rho s (D x) Hnf Hr) as (N & HN). exists N.
+  intros M HM acc Hacc. destruct (HN M HM) as (sc0 & Eb & Hsc0).
+  destruct (bind_sound M _ _ _ _ Hnf Eb) as (_ & Hnd & _ & Hda).
+  destruct (mu_complete sc0 acc s Hacc) as (r & Eu & Hr').
+  - intros z w Hin. apply Hsc0. apply env_get_nodup; assumption.
+  - apply Hda. eexists; reflexivity.
+  - exists r. split; [|exact Hr']. unfold bind_item. rewrite Eb. simpl. rewrite Eu. reflexivity.
+Qed.
+
+Lemma bind_rest_complete o w :
+  rest_rb s o (D w) -> forall M, (1 <= M)%nat -> forall acc, ext acc s ->
+  exists acc', match o with Some x => bind_item (bind_pat M) rho acc (PVar x) (D w) | None => Ok acc end = Ok acc'
+               /\ ext acc' s.
+Proof.
+  intros Hr M HM acc Hacc. destruct o as [r|]; [|exists acc; split; [reflexivity | exact Hacc]].
+  destruct M as [|M]; [lia|]. simpl in Hr.
+  destruct (mu_complete [(r, D w)] acc s Hacc) as (acc' & Eu & Hacc').
+  - intros z u [[= <- <-]|[]]. exact Hr.
+  - intros z u [[= <- <-]|[]]. eexists; reflexivity.
+  - exists acc'. split; [|exact Hacc']. unfold bind_item. rewrite bind_var. cbn [rbind]. rewrite Eu. reflexivity.
+Qed.
+
+(* ----- arrays ----- *)
+
+Lemma arr_prefix_complete : forall pre a, Forall2 (item_rb (rebuilds rho s)) pre a ->
+  Forall (fun it => (item_depth it <= k)%nat) pre -> forallb item_nofb pre = true ->
+  exists N, forall M, (N <= M)%nat -> forall acc, ext acc s -> exists acc', ext acc' s /\
+    forall hb rest ys, arr_go (eval M) (bind_pat M) rho hb (pre ++ rest) (a ++ ys) acc =
+                       arr_go (eval M) (bind_pat M) rho hb rest ys acc'.
+Proof.
+  induction 1 as [|it x pre a Hit F IH]; intros Hdep Hnf.
+  - exists 0%nat. intros M _ acc Hacc. exists acc. split; [exact Hacc | reflexivity].
+  - inversion Hit as [q x' Hq]; subst. inversion Hdep as [|? ? Hd1 Hdep']; subst.
+    simpl in Hnf. apply andb_true_iff in Hnf as [Hn1 Hnf].
+    destruct (bind_item_complete q x Hd1 Hn1 Hq) as (N1 & H1). destruct (IH Hdep' Hnf) as (N2 & H2).
+    exists (Nat.max N1 N2). intros M HM acc Hacc.
+    destruct (H1 M ltac:(lia) acc Hacc) as (acc1 & Eb & Hacc1).
+    destruct (H2 M ltac:(lia) acc1 Hacc1) as (acc' & Hacc' & Heq).
+    exists acc'. split; [exact Hacc'|]. intros hb rest ys. cbn [app arr_go]. rewrite Eb. simpl. apply Heq.
+Qed.
+
+Lemma arr_complete items d xs :
+  Forall (fun it => (item_depth it <= k)%nat) items -> forallb item_nofb items = true ->
+  dense_array d = Some xs -> arr_rb (rebuilds rho s) s items xs ->
+  exists n, forall m, (n <= m)%nat -> exists sc, bind_pat m rho (PArr items) (D d) = Ok sc /\ ext sc s.
+Proof.
+  intros Hdep Hnf Hd Hr. inversion Hr as [items' xs' F|pre o suf a m b F1 F2 Hrest]; subst.
+  - destruct (arr_prefix_complete _ _ F Hdep Hnf) as (N & HN). exists (S N).
+    intros m Hm. destruct m as [|M]; [lia|]. destruct (HN M ltac:(lia) [] (ext_nil s)) as (acc' & Hacc' & Heq).
+    exists acc'. split; [|exact Hacc']. rewrite bind_pat_S, bindF_arr. cbn [as_data rbind]. rewrite Hd.
+    rewrite (plain_count0 _ (Forall2_item_plain _ _ _ F)). change (1 <? 0)%nat with false. cbv iota.
+    specialize (Heq (existsb is_fallback items) [] []). rewrite !app_nil_r in Heq. rewrite Heq. reflexivity.
+  - apply Forall_app in Hdep as [Hdep1 Hdep2]. inversion Hdep2 as [|? ? _ Hdep3]; subst.
+    rewrite forallb_app in Hnf. apply andb_true_iff in Hnf as [Hnf1 Hnf2]. simpl in Hnf2.
+    destruct (arr_prefix_complete _ _ F1 Hdep1 Hnf1) as (N1 & H1).
+    destruct (arr_prefix_complete _ _ F2 Hdep3 Hnf2) as (N2 & H2).
+    exists (S (S (Nat.max N1 N2))). intros m' Hm. destruct m' as [|M]; [lia|].
+    destruct (H1 M ltac:(lia) [] (ext_nil s)) as (acc1 & Hacc1 & Heq1).
+    destruct (bind_rest_complete o _ Hrest M ltac:(lia) acc1 Hacc1) as (acc2 & Er & Hacc2).
+    destruct (H2 M ltac:(lia) acc2 Hacc2) as (acc3 & Hacc3 & Heq3).
+    exists acc3. split; [|exact Hacc3]. rewrite bind_pat_S, bindF_arr. cbn [as_data rbind]. rewrite Hd.
+    rewrite count_extras_app, (plain_count0 _ (Forall2_item_plain _ _ _ F1)).
+    replace (count_extras (PExtra o :: suf)) with 1%nat
+      by (change (count_extras (PExtra o :: suf)) with (S (count_extras suf));
+          rewrite (plain_count0 _ (Forall2_item_plain _ _ _ F2)); reflexivity).
+    change (1 <? 0 + 1)%nat with false. cbv iota.
+    rewrite Heq1, arr_go_rest_eq by (symmetry; eapply Forall2_len; eauto).
+    rewrite Er. cbn [rbind]. specialize (Heq3 (existsb is_fallback (pre ++ PExtra o :: suf)) [] []).
+    rewrite !app_nil_r in Heq3. rewrite Heq3. reflexivity.
+Qed.
+
+(* ----- tuples ----- *)
+
+Lemma tup_prefix_complete tv : forall pre, Forall (attr_rb (rebuilds rho s) tv) pre ->
+  Forall (fun a : name * pitem => (item_depth (snd a) <= k)%nat) pre ->
+  forallb (fun a : name * pitem => item_nofb (snd a)) pre = true ->
+  exists N, forall M, (N <= M)%nat -> forall acc, ext acc s -> exists acc', ext acc' s /\
+    forall hb rest rem extra,
+      tup_go (eval M) (bind_pat M) rho hb tv (pre ++ rest) rem extra acc =
+      tup_go (eval M) (bind_pat M) rho hb tv rest (remaining_attrs (map fst pre) rem) extra acc'.
+Proof.
+  induction 1 as [|at1 pre Hat F IH]; intros Hdep Hnf.
+  - exists 0%nat. intros M _ acc Hacc. exists acc. split; [exact Hacc | reflexivity].
+  - inversion Hat as [n0 q x Hg Hq]; subst. inversion Hdep as [|? ? Hd1 Hdep']; subst.
+    simpl in Hnf. apply andb_true_iff in Hnf as [Hn1 Hnf].
+    destruct (bind_item_complete q x Hd1 Hn1 Hq) as (N1 & H1). destruct (IH Hdep' Hnf) as (N2 & H2).
+    exists (Nat.max N1 N2). intros M HM acc Hacc.
+    destruct (H1 M ltac:(lia) acc Hacc) as (acc1 & Eb & Hacc1).
+    destruct (H2 M ltac:(lia) acc1 Hacc1) as (acc' & Hacc' & Heq).
+    exists acc'. split; [exact Hacc'|]. intros hb rest rem extra. cbn [app tup_go]. rewrite Hg, Eb. simpl. apply Heq.
+Qed.
+
+Lemma tup_complete attrs tv :
+  Forall (fun a : name * pitem => (item_depth (snd a) <= k)%nat) attrs ->
+  forallb (fun a : name * pitem => item_nofb (snd a)) attrs = true ->
+  tup_rb (rebuilds rho s) s attrs tv ->
+  exists n, forall m, (n <= m)%nat -> exists sc, bind_pat m rho (PTup attrs) (D (VTup tv)) = Ok sc /\ ext sc s.
+Proof.
+  intros Hdep Hnf Hr. inversion Hr as [attrs' tv' F Hrem|pre n0 o suf tv' F Hrest]; subst.
+  - destruct (tup_prefix_complete tv _ F Hdep Hnf) as (N & HN). exists (S N).
+    intros m Hm. destruct m as [|M]; [lia|]. destruct (HN M ltac:(lia) [] (ext_nil s)) as (acc' & Hacc' & Heq).
+    exists acc'. split; [|exact Hacc']. rewrite bind_pat_S, bindF_tup. cbn [as_data rbind].
+    change (fun a : name * pitem => match snd a with PExtra _ => true | _ => false end) with (@is_extra_snd name).
+    rewrite (plain_snd_filter _ (Forall_attr_plain _ _ _ F)). change (1 <? length (@nil (name * pitem)))%nat with false. cbv iota.
+    specialize (Heq (existsb (fun a : name * pitem => is_fallback (snd a)) attrs) [] tv None).
+    rewrite !app_nil_r in Heq. rewrite Heq, Hrem. reflexivity.
+  - apply Forall_app in F as [F1 F2].
+    apply Forall_app in Hdep as [Hdep1 Hdep2]. inversion Hdep2 as [|? ? _ Hdep3]; subst.
+    rewrite forallb_app in Hnf. apply andb_true_iff in Hnf as [Hnf1 Hnf2]. simpl in Hnf2.
+    destruct (tup_prefix_complete tv _ F1 Hdep1 Hnf1) as (N1 & H1).
+    destruct (tup_prefix_complete tv _ F2 Hdep3 Hnf2) as (N2 & H2).
+    exists (S (S (Nat.max N1 N2))). intros m' Hm. destruct m' as [|M]; [lia|].
+    destruct (H1 M ltac:(lia) [] (ext_nil s)) as (acc1 & Hacc1 & Heq1).
+    destruct (H2 M ltac:(lia) acc1 Hacc1) as (acc2 & Hacc2 & Heq2).
+    rewrite map_app, remaining_attrs_app in Hrest.
+    destruct (bind_rest_complete o _ Hrest M ltac:(lia) acc2 Hacc2) as (acc3 & Er & Hacc3).
+    exists acc3. split; [|exact Hacc3]. rewrite bind_pat_S, bindF_tup. cbn [as_data rbind].
+    change (fun a : name * pitem => match snd a with PExtra _ => true | _ => false end) with (@is_extra_snd name).
+    rewrite filter_app. rewrite (plain_snd_filter _ (Forall_attr_plain _ _ _ F1)).
+    replace (filter is_extra_snd ((n0, PExtra o) :: suf)) with [(n0, PExtra o)]
+      by (change (filter is_extra_snd ((n0, PExtra o) :: suf)) with ((n0, PExtra o) :: filter is_extra_snd suf);
+          rewrite (plain_snd_filter _ (Forall_attr_plain _ _ _ F2)); reflexivity).
+    change (1 <? length ([] ++ [(n0, PExtra o)]))%nat with false. cbv iota.
+    rewrite Heq1. cbn [tup_go].
+    specialize (Heq2 (existsb (fun a : name * pitem => is_fallback (snd a)) (pre ++ (n0, PExtra o) :: suf)) []
+                     (remaining_attrs (map fst pre) tv) (Some o)).
+    rewrite !app_nil_r in Heq2. rewrite Heq2. cbn [tup_go]. exact Er.
+Qed.
+
+(* ----- dicts ----- *)
+
+Lemma dict_prefix_complete : forall pre rem rem', dict_keys_rb (rebuilds rho s) rho pre rem rem' ->
+  Forall (fun a : expr * pitem => (item_depth (snd a) <= k)%nat) pre ->
+  forallb (fun a : expr * pitem => item_nofb (snd a)) pre = true ->
+  exists N, forall M, (N <= M)%nat -> forall acc, ext acc s -> exists acc', ext acc' s /\
+    forall hb rest extra,
+      dict_go (eval M) (bind_pat M) rho hb (pre ++ rest) rem extra acc =
+      dict_go (eval M) (bind_pat M) rho hb rest rem' extra acc'.
+Proof.
+  induction 1 as [rem|ke q ents rem rem' k0 x Hke Hf Hq Hrest IH]; intros Hdep Hnf.
+  - exists 0%nat. intros M _ acc Hacc. exists acc. split; [exact Hacc | reflexivity].
+  - inversion Hdep as [|? ? Hd1 Hdep']; subst.
+    simpl in Hnf. apply andb_true_iff in Hnf as [Hn1 Hnf].
+    destruct Hke as (nk & Hke).
+    destruct (bind_item_complete q x Hd1 Hn1 Hq) as (N1 & H1). destruct (IH Hdep' Hnf) as (N2 & H2).
+    exists (Nat.max nk (Nat.max N1 N2)). intros M HM acc Hacc.
+    destruct (H1 M ltac:(lia) acc Hacc) as (acc1 & Eb & Hacc1).
+    destruct (H2 M ltac:(lia) acc1 Hacc1) as (acc' & Hacc' & Heq).
+    exists acc'. split; [exact Hacc'|]. intros hb rest extra. cbn [app dict_go].
+    rewrite (eval_ok_mono nk M _ _ _ ltac:(lia) Hke). cbn [rbind as_data]. rewrite Hf, Eb. cbn [rbind]. apply Heq.
+Qed.
+
+Lemma dict_complete entries l es :
+  Forall (fun a : expr * pitem => (item_depth (snd a) <= k)%nat) entries ->
+  forallb (fun a : expr * pitem => item_nofb (snd a)) entries = true ->
+  dict_entries l = Some es -> dict_rb (rebuilds rho s) rho s entries es ->
+  exists n, forall m, (n <= m)%nat -> exists sc, bind_pat m rho (PDict entries) (D (VSet l)) = Ok sc /\ ext sc s.
+Proof.
+  intros Hdep Hnf He Hr. inversion Hr as [ents' es' F|pre ke0 o suf es' rem F Hrest]; subst.
+  - destruct (dict_prefix_complete _ _ _ F Hdep Hnf) as (N & HN). exists (S N).
+    intros m Hm. destruct m as [|M]; [lia|]. destruct (HN M ltac:(lia) [] (ext_nil s)) as (acc' & Hacc' & Heq).
+    exists acc'. split; [|exact Hacc']. rewrite bind_pat_S, bindF_dict. cbn [as_data rbind]. rewrite He.
+    change (fun a : expr * pitem => match snd a with PExtra _ => true | _ => false end) with (@is_extra_snd expr).
+    rewrite (plain_snd_filter _ (dict_keys_plain _ _ _ _ _ F)). change (1 <? length (@nil (expr * pitem)))%nat with false. cbv iota.
+    specialize (Heq (existsb (fun a : expr * pitem => is_fallback (snd a)) entries) [] None).
+    rewrite !app_nil_r in Heq. rewrite Heq. reflexivity.
+  - destruct (dict_keys_split _ _ _ _ _ _ F) as (rem1 & F1 & F2).
+    apply Forall_app in Hdep as [Hdep1 Hdep2]. inversion Hdep2 as [|? ? _ Hdep3]; subst.
+    rewrite forallb_app in Hnf. apply andb_true_iff in Hnf as [Hnf1 Hnf2]. simpl in Hnf2.
+    destruct (dict_prefix_complete _ _ _ F1 Hdep1 Hnf1) as (N1 & H1).
+    destruct (dict_prefix_complete _ _ _ F2 Hdep3 Hnf2) as (N2 & H2).
+    exists (S (S (Nat.max N1 N2))). intros m' Hm. destruct m' as [|M]; [lia|].
+    destruct (H1 M ltac:(lia) [] (ext_nil s)) as (acc1 & Hacc1 & Heq1).
+    destruct (H2 M ltac:(lia) acc1 Hacc1) as (acc2 & Hacc2 & Heq2).
+    destruct (bind_rest_complete o _ Hrest M ltac:(lia) acc2 Hacc2) as (acc3 & Er & Hacc3).
+    exists acc3. split; [|exact Hacc3]. rewrite bind_pat_S, bindF_dict. cbn [as_data rbind]. rewrite He.
+    change (fun a : expr * pitem => match snd a with PExtra _ => true | _ => false end) with (@is_extra_snd expr).
+    rewrite filter_app. rewrite (plain_snd_filter _ (dict_keys_plain _ _ _ _ _ F1)).
+    replace (filter is_extra_snd ((ke0, PExtra o) :: suf)) with [(ke0, PExtra o)]
+      by (change (filter is_extra_snd ((ke0, PExtra o) :: suf)) with ((ke0, PExtra o) :: filter is_extra_snd suf);
+          rewrite (plain_snd_filter _ (dict_keys_plain _ _ _ _ _ F2)); reflexivity).
+    change (1 <? length ([] ++ [(ke0, PExtra o)]))%nat with false. cbv iota.
+    rewrite Heq1. cbn [dict_go].
+    specialize (Heq2 (existsb (fun a : expr * pitem => is_fallback (snd a)) (pre ++ (ke0, PExtra o) :: suf)) [] (Some o)).
+    rewrite !app_nil_r in Heq2. rewrite Heq2. cbn [dict_go]. exact Er.
+Qed.
+
+(* ----- sets ----- *)
+
+Lemma set_prefix_complete : forall pre rem rem', set_lits_rb rho pre rem rem' ->
+  exists N, forall M, (N <= M)%nat -> forall rest binder,
+    set_go (eval M) (bind_pat M) rho (pre ++ rest) rem binder = set_go (eval M) (bind_pat M) rho rest rem' binder.
+Proof.
+  induction 1 as [rem|e fb its a rem rem' He Hin Hrest IH].
+  - exists 0%nat. reflexivity.
+  - destruct He as (ne & He). destruct IH as (N2 & H2). exists (Nat.max ne N2).
+    intros M HM rest binder. cbn [app set_go]. rewrite (eval_ok_mono ne M _ _ _ ltac:(lia) He). cbn [rbind as_data].
+    replace (vmem a rem) with true by (symmetry; apply vmem_in, Hin). apply H2. lia.
+Qed.
+
+Lemma set_complete items l :
+  Forall (fun it => (item_depth it <= k)%nat) items -> forallb item_nofb items = true ->
+  set_rb (rebuilds rho s) rho s items l ->
+  exists n, forall m, (n <= m)%nat -> exists sc, bind_pat m rho (PSet items) (D (VSet l)) = Ok sc /\ ext sc s.
+Proof.
+  intros Hdep Hnf Hr. inversion Hr as [items' l' F|pre it suf l' rem Hlit F Hb]; subst.
+  - destruct (set_prefix_complete _ _ _ F) as (N & HN). exists (S N).
+    intros m Hm. destruct m as [|M]; [lia|]. exists []. split; [|apply ext_nil].
+    rewrite bind_pat_S, bindF_set. cbn [as_data rbind].
+    specialize (HN M ltac:(lia) [] None). rewrite app_nil_r in HN. rewrite HN. reflexivity.
+  - destruct (set_lits_split _ _ _ _ _ F) as (rem1 & F1 & F2).
+    destruct (set_prefix_complete _ _ _ F1) as (N1 & H1). destruct (set_prefix_complete _ _ _ F2) as (N2 & H2).
+    apply Forall_app in Hdep as [_ Hdep2]. inversion Hdep2 as [|? ? Hdi _]; subst.
+    rewrite forallb_app in Hnf. apply andb_true_iff in Hnf as [_ Hnf2]. simpl in Hnf2.
+    apply andb_true_iff in Hnf2 as [Hnfi _].
+    assert (Hstep : forall M r, set_go (eval M) (bind_pat M) rho (it :: suf) r None =
+                                set_go (eval M) (bind_pat M) rho suf r (Some it)).
+    { intros M r. destruct it as [q fb|o]; [destruct q|]; try discriminate; reflexivity. }
+    inversion Hb as [o rem' Hrest|q x Hq]; subst.
+    + exists (S (Nat.max N1 N2)). intros m Hm. destruct m as [|M]; [lia|].
+      rewrite bind_pat_S, bindF_set. cbn [as_data rbind]. rewrite (H1 M ltac:(lia)), Hstep.
+      specialize (H2 M ltac:(lia) [] (Some (PExtra o))). rewrite app_nil_r in H2. rewrite H2. cbn [set_go].
+      destruct o as [x|].
+      * eexists. split; [reflexivity|]. intros z w. simpl. destruct (name_eqb z x) eqn:E; [|discriminate].
+        apply name_eqb_eq in E. subst. intros [= <-]. exact Hrest.
+      * eexists. split; [reflexivity | apply ext_nil].
+    + simpl in Hdi, Hnfi.
+      destruct (IHk q Hdi rho s (D x) Hnfi Hq) as (Nq & HNq).
+      exists (S (Nat.max Nq (Nat.max N1 N2))). intros m Hm. destruct m as [|M]; [lia|].
+      destruct (HNq M ltac:(lia)) as (sc & Eb & Hsc). exists sc. split; [|exact Hsc].
+      rewrite bind_pat_S, bindF_set. cbn [as_data rbind]. rewrite (H1 M ltac:(lia)), Hstep.
+      specialize (H2 M ltac:(lia) [] (Some (PItem q None))). rewrite app_nil_r in H2. rewrite H2. cbn [set_go]. exact Eb.
+Qed.
+
+End CompleteStep.
+
+Lemma list_max_bound {A} (f : A -> nat) l k : (list_max (map f l) <= k)%nat -> Forall (fun a => (f a <= k)%nat) l.
+Proof. intros H. apply list_max_le in H. apply Forall_map in H. exact H. Qed.
+
+Theorem bind_complete : forall k, Complete k.
+Proof.
+  induction k as [|k IH]; intros p Hd rho s v Hnf Hr.
+  - destruct p; simpl in Hd; try lia; eapply complete_leaf; eauto; exact I.
+  - destruct p as [x| |e|items|attrs|entries|items]; try (eapply complete_leaf; eauto; exact I);
+      simpl in Hd; apply le_S_n in Hd; apply list_max_bound in Hd; simpl in Hnf; inversion Hr; subst.
+    + eapply arr_complete; eauto.
+    + eapply tup_complete; eauto.
+    + eapply dict_complete; eauto.
+    + eapply set_complete; eauto.
+Qed.
+
+(* ---------- the general theorem and its corollaries ---------- *)
+
+Lemma binds_exactly_of_dom p sc :
+  (forall x, In x (map fst sc) <-> In x (pat_names p)) -> binds_exactly p sc.
+Proof. intros H x. rewrite env_get_dom. apply H. Qed.
+
+Theorem match_iff_rebuilds p rho v s : pat_nofb p = true ->
+  ((exists n sc, bind_pat n rho p v = Ok sc /\ env_equiv sc s) <-> (rebuilds rho s p v /\ binds_exactly p s)).
+Proof.
+  intros Hnf. split.
+  - intros (n & sc & Hb & Heq). destruct (bind_sound n _ _ _ _ Hnf Hb) as (Hrb & _ & Hdom & _). split.
+    + apply Hrb. intros x w Hx. rewrite <- Heq. exact Hx.
+    + intros x. rewrite <- Heq, env_get_dom. apply Hdom.
+  - intros [Hr Hex]. destruct (bind_complete _ p (le_n _) rho s v Hnf Hr) as (n & Hn).
+    destruct (Hn n (le_n _)) as (sc & Hb & Hext). exists n, sc. split; [exact Hb|].
+    destruct (bind_sound n _ _ _ _ Hnf Hb) as (_ & _ & Hdom & _).
+    intros x. destruct (env_get x sc) as [w|] eqn:E; [symmetry; apply Hext, E|].
+    destruct (env_get x s) as [w|] eqn:E'; [|reflexivity]. exfalso.
+    assert (Hin : In x (pat_names p)) by (apply Hex; congruence).
+    apply Hdom in Hin. apply env_get_dom in Hin. congruence.
+Qed.
+
+(* the bindings of a successful match themselves rebuild the value *)
+Theorem match_rebuilds p rho v n sc : pat_nofb p = true ->
+  bind_pat n rho p v = Ok sc -> rebuilds rho sc p v /\ binds_exactly p sc.
+Proof.
+  intros Hnf Hb. destruct (bind_sound n _ _ _ _ Hnf Hb) as (Hrb & _ & Hdom & _).
+  split; [apply Hrb, ext_refl | apply binds_exactly_of_dom, Hdom].
+Qed.
+
+(* fuel: once the match has an answer, every larger fuel gives the same answer *)
+Theorem match_fuel_stable n m rho p v sc : (n <= m)%nat -> bind_pat n rho p v = Ok sc -> bind_pat m rho p v = Ok sc.
+Proof. apply bind_ok_mono. Qed.
+
+Theorem match_deterministic n m rho p v sc sc' :
+  bind_pat n rho p v = Ok sc -> bind_pat m rho p v = Ok sc' -> sc = sc'.
+Proof.
+  intros H1 H2. destruct (Nat.le_ge_cases n m) as [H|H].
+  - rewrite (bind_ok_mono _ _ _ _ _ _ H H1) in H2. congruence.
+  - rewrite (bind_ok_mono _ _ _ _ _ _ H H2) in H1. congruence.
+Qed.
+
+(* the equation "p under s rebuilds v" has at most one solution on the names of p *)
+Theorem rebuilding_assignment_unique p rho v s1 s2 : pat_nofb p = true ->
+  rebuilds rho s1 p v -> binds_exactly p s1 -> rebuilds rho s2 p v -> binds_exactly p s2 -> env_equiv s1 s2.
+Proof.
+  intros Hnf R1 B1 R2 B2.
+  destruct (proj2 (match_iff_rebuilds p rho v s1 Hnf) (conj R1 B1)) as (n1 & sc1 & H1 & E1).
+  destruct (proj2 (match_iff_rebuilds p rho v s2 Hnf) (conj R2 B2)) as (n2 & sc2 & H2 & E2).
+  rewrite (match_deterministic _ _ _ _ _ _ _ H1 H2) in E1. intros x. rewrite <- E1, <- E2. reflexivity.
+Qed.
+
+(* the members of a set value can be enumerated in any order *)
+From Coq Require Import Permutation.
+From Arrai Require Import Proofs.PermP.
+Theorem match_ignores_enumeration_order n rho p l l' :
+  Permutation l l' -> bind_pat n rho p (D (mkset l)) = bind_pat n rho p (D (mkset l')).
+Proof. intros H. rewrite (mkset_perm _ _ H). reflexivity. Qed.
+
+(* no assignment rebuilds the value: the match never succeeds; and a match that fails with an error
+   means that no assignment rebuilds the value *)
+Theorem no_rebuild_no_match p rho v : pat_nofb p = true ->
+  (forall s, ~ rebuilds rho s p v) -> forall n sc, bind_pat n rho p v <> Ok sc.
+Proof. intros Hnf Hno n sc Hb. apply (Hno sc). eapply match_rebuilds; eauto. Qed.
+
+Theorem match_error_no_rebuild p rho v n : pat_nofb p = true ->
+  bind_pat n rho p v = Err -> forall s, ~ rebuilds rho s p v.
+Proof.
+  intros Hnf He s Hr. destruct (bind_complete _ p (le_n _) rho s v Hnf Hr) as (N & HN).
+  destruct (HN (Nat.max n N) ltac:(lia)) as (sc & Hb & _).
+  destruct (bind_fuel_mono n (Nat.max n N) rho p v ltac:(lia)) as [E|E]; congruence.
+Qed.
+
+(* every name of the pattern is bound exactly once, and no other name changes *)
+Theorem match_binds_each_name_once p rho v n sc : pat_nofb p = true -> bind_pat n rho p v = Ok sc ->
+  NoDup (map fst sc) /\ (forall x, In x (map fst sc) <-> In x (pat_names p)).
+Proof. intros Hnf Hb. destruct (bind_sound n _ _ _ _ Hnf Hb) as (_ & Hnd & Hdom & _). split; assumption. Qed.
+
+Theorem match_leaves_other_names p rho v n sc (outer : env) x : pat_nofb p = true ->
+  bind_pat n rho p v = Ok sc -> ~ In x (pat_names p) -> env_get x (sc ++ outer) = env_get x outer.
+Proof.
+  intros Hnf Hb Hx. destruct (bind_sound n _ _ _ _ Hnf Hb) as (_ & _ & Hdom & _).
+  rewrite env_get_app. replace (env_get x sc) with (@None value); [reflexivity|].
+  symmetry. apply env_get_none. rewrite Hdom. exact Hx.
+Qed.
+
+(* let / function parameter / cond arm: a value comes out only through bindings that rebuild *)
+Theorem let_value_only_through_rebuild n rho p e1 e2 r : pat_nofb p = true ->
+  eval n rho (ELet p e1 e2) = Ok r ->
+  exists m v sc, eval m rho e1 = Ok v /\ rebuilds rho sc p v /\ binds_exactly p sc /\ eval m (sc ++ rho) e2 = Ok r.
+Proof.
+  intros Hnf H. destruct n as [|n]; [discriminate|]. cbn [eval evalF] in H.
+  destruct (eval n rho e1) as [v| | |] eqn:E1; simpl in H; try discriminate.
+  destruct (bind_pat n rho p v) as [sc| | |] eqn:Eb; simpl in H; try discriminate.
+  destruct (match_rebuilds _ _ _ _ _ Hnf Eb) as [Hr Hb]. exists n, v, sc. split; [exact E1|]. split; [exact Hr|]. split; [exact Hb | exact H].
+Qed.
+
+Theorem let_no_rebuild_no_value n rho p e1 e2 v : pat_nofb p = true ->
+  eval n rho e1 = Ok v -> (forall s, ~ rebuilds rho s p v) -> forall m r, eval m rho (ELet p e1 e2) <> Ok r.
+Proof.
+  intros Hnf H1 Hno m r H. destruct (let_value_only_through_rebuild _ _ _ _ _ _ Hnf H) as (m' & v' & sc & E1 & Hr & _).
+  assert (v' = v).
+  { assert (N1 : eval n rho e1 <> OutOfFuel) by congruence. assert (N2 : eval m' rho e1 <> OutOfFuel) by congruence.
+    pose proof (eval_fuel_independent n m' rho e1 N1 N2) as E. congruence. }
+  subst. exact (Hno sc Hr).
+Qed.
+
+Theorem call_value_only_through_rebuild n rho p body a r : pat_nofb p = true ->
+  eval n rho (ECall (EFn p body) a) = Ok r ->
+  exists m v sc, eval m rho a = Ok v /\ rebuilds rho sc p v /\ binds_exactly p sc /\ eval m (sc ++ rho) body = Ok r.
+Proof.
+  intros Hnf H. destruct n as [|n]; [discriminate|]. cbn [eval evalF] in H.
+  destruct n as [|n]; [discriminate|]. change (eval (S n) rho (EFn p body)) with (@Ok value (Clos rho p body)) in H.
+  cbn [rbind] in H.
+  destruct (eval (S n) rho a) as [v| | |] eqn:E1; cbn [rbind] in H; try discriminate.
+  destruct (bind_pat (S n) rho p v) as [sc| | |] eqn:Eb; cbn [rbind] in H; try discriminate.
+  destruct (match_rebuilds _ _ _ _ _ Hnf Eb) as [Hr Hb]. exists (S n), v, sc. split; [exact E1|]. split; [exact Hr|]. split; [exact Hb | exact H].
+Qed.
+
+Theorem cond_arm_only_through_rebuild n rho c p body arms r : pat_nofb p = true ->
+  eval (S n) rho (ECondPat c ((p, body) :: arms)) = Ok r ->
+  exists v, eval n rho c = Ok v /\
+    ((exists sc, rebuilds rho sc p v /\ binds_exactly p sc /\ eval n (sc ++ rho) body = Ok r) \/
+     ((forall s, ~ rebuilds rho s p v) /\ eval (S n) rho (ECondPat c arms) = Ok r)).
+Proof.
+  intros Hnf H. cbn [eval evalF] in H.
+  destruct (eval n rho c) as [v| | |] eqn:Ec; cbn [rbind] in H; try discriminate.
+  exists v. split; [reflexivity|].
+  destruct (bind_pat n rho p v) as [sc| | |] eqn:Eb; try discriminate.
+  - left. destruct (match_rebuilds _ _ _ _ _ Hnf Eb) as [Hr Hb]. exists sc. split; [exact Hr|]. split; [exact Hb | exact H].
+  - right. split; [eapply match_error_no_rebuild; eauto|].
+    cbn [eval evalF]. rewrite Ec. cbn [rbind]. exact H.
+Qed.
